@@ -23,8 +23,19 @@ def snapshot(net):
         elif k == "component_list":
             out[k] = tuple(c.__name__ for c in v)
         elif k == "std_types":
-            out[k] = {t: tuple(sorted(d)) for t, d in v.items()}
+            out[k] = _std_repr(v)
     return out
+
+
+def _std_repr(v):
+    """value-level image of the standard-type library (names and every parameter)"""
+    if isinstance(v, dict):
+        return tuple(sorted((str(k), _std_repr(x)) for k, x in v.items()))
+    if hasattr(v, "reg_par"):
+        return ("regression", tuple(float(x) for x in np.ravel(v.reg_par)))
+    if isinstance(v, float) and v != v:
+        return "nan"
+    return repr(v)
 
 
 def diff(a, b):
@@ -214,6 +225,39 @@ def search(ctx, escalate=False):
                              sector=str(sector), changed=d)
                 if len(samples) < 4:
                     samples.append({"function": fn, "fault": label, "sector": str(sector), "raised": type(raised).__name__ if raised else None})
+    # --- a successful call adds its rows and changes nothing else (std-type library, other tables) ----------------
+    variants = [(fn, kw, "plain") for fn, kw in calls.items()]
+    for fn in ("create_pipe", "create_pipes"):
+        variants.append((fn, dict(calls[fn], k_mm=0.55, u_w_per_m2k=1.5), "overrides"))
+        variants.append((fn, dict(calls[fn], std_type="80_GGG", k_mm=0.55), "overrides-80_GGG"))
+    for fn, kw, label in variants:
+        net = base_net(pp, Sector.ALL, True)
+        tbl = TABLE_OF[fn]
+        before = snapshot(net)
+        try:
+            getattr(pp, fn)(net, **kw)
+        except Exception:
+            continue
+        n += 1
+        distinct.add((fn, "adds-only", label))
+        allowed = {tbl, tbl + "_geodata", "res_" + tbl, "component_list"}
+        if "new_std_type_name" in kw:
+            allowed.add("std_types")
+        d = [k for k in diff(before, snapshot(net)) if k not in allowed]
+        if d:
+            fail("C16:successful-call-changes-other-parts:%s:%s" % (fn, d[0]), "adds exactly the requested rows, net otherwise unchanged",
+                 function=fn, variant=label, changed=d)
+        if fn in ("create_pipe", "create_pipes") and label != "plain":
+            # ... and a later creation from the same std type without overrides gets the type's own parameters
+            st = kw["std_type"]
+            a = pp.create_pipe(net, 8, 20, std_type=st, length_km=0.1)
+            ref = base_net(pp, Sector.ALL, True)
+            b = pp.create_pipe(ref, 8, 20, std_type=st, length_km=0.1)
+            for c in ("k_mm", "u_w_per_m2k", "inner_diameter_mm"):
+                x, y = norm_cell(net.pipe.at[a, c]), norm_cell(ref.pipe.at[b, c])
+                if x != y:
+                    fail("C16:std-type-parameters-after-override:%s" % c, "std-type creation uses the type's parameters",
+                         std_type=st, column=c, after_override=x, fresh=y)
     # --- bulk = one by one; std type = parameters; dtypes preserved ------------------------------------------
     pairs = [("create_sinks", "create_sink", {"junctions": "junction"}), ("create_sources", "create_source", {"junctions": "junction"}),
              ("create_ext_grids", "create_ext_grid", {"junctions": "junction"}),
